@@ -1,8 +1,10 @@
 #![no_main]
-// libFuzzer target: the bytes are decoded by the same generator as the proptest-driven check of
-// C02 and judged by the same oracle (the semantic oracle is inside the target).
+// libFuzzer target: the bytes are decoded by the same generator as the proptest-driven check and
+// judged by the same oracle (the semantic oracle is inside the target). The property whose
+// projection judges the run is taken from VERIF_FUZZ_ID (default C02).
 use libfuzzer_sys::fuzz_target;
 
 fuzz_target!(|data: &[u8]| {
-    vharness::fuzz::fuzz_one("C02", data);
+    let id = std::env::var("VERIF_FUZZ_ID").unwrap_or_else(|_| "C02".to_string());
+    vharness::fuzz::fuzz_one(&id, data);
 });
